@@ -268,41 +268,22 @@ func (g granular) rule() rbacv1.PolicyRule {
 	return r
 }
 
-// wildClass names which dimensions of the granular rule are wildcards (for stable keys).
+// wildClass is the coarse class of a granular requested rule, used in violation keys: kind
+// of rule, and whether it carries a wildcard token, covers all names, or is fully specific.
 func (g granular) wildClass() string {
 	if g.URL {
-		c := "url"
-		if g.Path == star {
-			c += "+anypath"
-		} else if strings.HasSuffix(g.Path, star) {
-			c += "+prefix"
+		if strings.HasSuffix(g.Path, star) || g.Verb == star {
+			return "url+wildcard-request"
 		}
-		if g.Verb == star {
-			c += "+anyverb"
-		}
-		return c
-	}
-	var p []string
-	if g.Group == star {
-		p = append(p, "anygroup")
+		return "url+specific-request"
 	}
 	switch {
-	case g.Res == star:
-		p = append(p, "anyresource")
-	case strings.HasPrefix(g.Res, "*/"):
-		p = append(p, "anyresource-sub")
-	case strings.Contains(g.Res, "/"):
-		p = append(p, "sub")
+	case g.Group == star || g.Verb == star || g.Res == star || strings.HasPrefix(g.Res, "*/"):
+		return "resource+wildcard-request"
+	case g.AnyName:
+		return "resource+allnames-request"
 	}
-	if g.AnyName {
-		p = append(p, "anyname")
-	} else {
-		p = append(p, "named")
-	}
-	if g.Verb == star {
-		p = append(p, "anyverb")
-	}
-	return strings.Join(p, "+")
+	return "resource+named-request"
 }
 
 func expandOracle(rs []rbacv1.PolicyRule) []granular {
